@@ -270,6 +270,15 @@ func c06Gran() []c06Range {
 	for _, x := range ds {
 		rs = append(rs, c06Range{x.y, x.m, x.d, x.y, x.m, x.d, 0})
 	}
+	// the two ends of the supported years: the first and the last day, month
+	// and year, and ranges that start or end there
+	for _, y := range []int{1, 9999} {
+		for _, x := range []pd{{y, 0, 0}, {y, 1, 0}, {y, 12, 0}, {y, 1, 1}, {y, 1, 2}, {y, 12, 30}, {y, 12, 31}} {
+			rs = append(rs, c06Range{x.y, x.m, x.d, x.y, x.m, x.d, 0})
+		}
+	}
+	rs = append(rs, c06Range{1, 0, 0, 9999, 0, 0, 0}, c06Range{1, 1, 1, 9999, 12, 31, 0}, c06Range{1900, 0, 0, 9999, 0, 0, 0}, c06Range{1900, 2, 0, 9999, 12, 0, 0}, c06Range{9998, 0, 0, 9999, 0, 0, 0},
+		c06Range{9999, 1, 1, 9999, 12, 31, 0}, c06Range{9999, 12, 30, 9999, 12, 31, 0}, c06Range{1, 0, 0, 2, 0, 0, 0}, c06Range{1, 1, 1, 1, 1, 2, 0}, c06Range{1, 0, 0, 2000, 2, 29, 0})
 	// ranges between partial dates (subset: start and end in adjacent positions)
 	for i := 0; i < len(ds); i++ {
 		for _, k := range []int{1, 2, 5, 9, 21} {
